@@ -291,6 +291,33 @@ def sequence_leg(n_variants, kind, chunked):
                         # frames are regenerated from the start frame: the coding sequence is the edited spliced sequence in ONE frame
                         if got_inframe != exp[: len(exp) // 3 * 3]:
                             return False
+            if kind == "location" and chunked and w > 0:
+                # lift_over_location takes chunk-relative AND chromosome-relative locations: two locations that PRINT the same numbers in the two
+                # coordinate systems (chromosome bl and chromosome bl+w) are lifted through the same haplotype object one after the other, in both orders
+                def cut(bl_):
+                    return any(not (b[0] <= vs and ve <= b[1]) for vs, ve, alt in edits for b in bl_ if b[0] < ve and vs < b[1])
+
+                def expect(bl_, strand):
+                    e_ = "".join(_apply(REF[s_:e_], [(vs - s_, ve - s_, alt) for vs, ve, alt in edits if s_ <= vs and ve <= e_]) for s_, e_ in bl_)
+                    return "".join({"A": "T", "C": "G", "G": "C", "T": "A"}[c] for c in reversed(e_)) if strand is MINUS else e_
+
+                def lifted_seq(loc):
+                    try:
+                        return str(hap.lift_over_location(loc).extract_sequence())
+                    except EmptyLocationException:
+                        return ""
+
+                for n_, bl in enumerate(LAYOUTS):
+                    bl2 = [(b[0] + w, b[1] + w) for b in bl]
+                    if bl[0][0] < w or bl2[-1][1] > len(REF) or cut(bl) or cut(bl2):
+                        continue
+                    for strand in (PLUS, MINUS):
+                        o1 = FeatureInterval([b[0] for b in bl], [b[1] for b in bl], strand, guid=91, parent_or_seq_chunk_parent=par())
+                        o2 = FeatureInterval([b[0] for b in bl2], [b[1] for b in bl2], strand, guid=92, parent_or_seq_chunk_parent=par())
+                        asks = [(o1.chromosome_location, expect(bl, strand)), (o2.chunk_relative_location, expect(bl2, strand))]
+                        for loc, exp in (asks if n_ % 2 == 0 else reversed(asks)):
+                            if lifted_seq(loc) != exp:
+                                return False
             return True
 
     return fn
